@@ -34,7 +34,7 @@ PROPERTY_NOTES = {
                 not_covered=["'free space never drops below zero' is not a discharged obligation: it needs a sum over the set of running ingest streams; the code keeps no reserve for concurrently admitted observations (F7: recorded as a known finding of the bounded monitor, scenario tight-hot-overlap); only the per-observation admission check is proved"]),
     'C08': dict(assumptions=[S['S1'], S['S3'], "telescope_use >= 0 (needs the sum of demands of running observations)",
                              "'completely idle' includes: no admitted ingest in progress (ghost admitted_ingest = 0; the ghost grows where an admission is granted and shrinks where allocate_ingest returns, and the Scheduler invariant ties provision_ingest to it)"],
-                not_covered=["interference between observations admitted in the same timestep (DESIGN F9)"]),
+                not_covered=["interference between observations admitted in the same timestep is not modelled by the contracts (processes spawned in one step see each other's effects only through the promise counter); the real code does fail there (F9: recorded as a known finding of the bounded monitor, scenario same-start-short-of-machines)"]),
     'C09': dict(assumptions=[S['S1'], NX, "the per-observation split given to BatchProcessing has whole numbers and min <= max (assumed precondition)"],
                 not_covered=["per-observation min/max from the configuration file never reach the algorithm (DESIGN F10)"]),
     'C10': dict(assumptions=[S['S7'], NP, "sorted() with a key that contains the object's id/name is injective on tasks (ids unique, C14)",
